@@ -802,6 +802,9 @@ def core_strategy(tier):
             "asm": gen.asm_spec(),
             "refType": st.sampled_from(ASSEM_TYPES),
             "followers": st.lists(st.sampled_from(ASSEM_TYPES), min_size=1, max_size=3),
+            # how the followers are snapped after each reference change: "auto" = manageCoreMesh, True / False =
+            # setBlockMesh(refMesh, conserveMassFlag=...) directly
+            "conserve": st.lists(st.sampled_from(["auto", "auto", True, False]), min_size=1, max_size=3),
             "steps": st.lists(step, min_size=1, max_size=3),
         }
     )
@@ -851,7 +854,14 @@ def core_execute(case):
             continue
         pre = [_snapshot(f) for f in followers]
         old_h = [[float(b.getHeight()) for b in f] for f in followers]
-        run.changer.manageCoreMesh(r)
+        mode = case.get("conserve", ["auto"])[(run.applied - 1) % len(case.get("conserve", ["auto"]))]
+        out.label("snap:%s" % mode)
+        if mode == "auto":
+            run.changer.manageCoreMesh(r)
+        else:
+            for f in followers:
+                f.setBlockMesh(run.a.getAxialMesh(), conserveMassFlag=mode)
+            core.updateAxialMesh()
         ref_tops = [float(b.p.ztop) for b in run.a]
         out.check(core.p.axialMesh is not None and all(abs(x - y) <= tol for x, y in zip(core.p.axialMesh, ref_tops)),
                   "c12/core-mesh/core-axial-mesh", "core axial mesh not the reference mesh")
@@ -866,6 +876,19 @@ def core_execute(case):
             ok = ok and len(bounds) == len(tops) + 1 and all(abs(x - y) <= tol for x, y in zip(bounds, [0.0] + tops))
             out.check(ok and abs(float(f.getTotalHeight()) - run.L0) <= tol, "c12/core-mesh/follower-not-on-reference-mesh",
                       lambda: "%s: tops %s bounds %s, reference tops %s" % (where, tops, bounds, ref_tops))
+            if mode != "auto":
+                for i, b in enumerate(f):
+                    for c in b:
+                        old = pre[fi]["comp"][(i, c.name)]
+                        if mode is True:  # "True conserves mass for all components"
+                            out.check(_rel_close(float(c.getMass()), old["mass"]), "c12/core-mesh/conserve-true-mass-not-conserved",
+                                      lambda: "%s: setBlockMesh(conserveMassFlag=True): block %d %s mass %r -> %r (x %.12g)"
+                                      % (where, i, c.name, old["mass"], float(c.getMass()), float(c.getMass()) / old["mass"] if old["mass"] else 0.0))
+                        else:  # "False ... does not conserve any masses": densities untouched
+                            out.check(_nd_scaled({k: float(v) for k, v in c.getNumberDensities().items()}, old["nd"], 1.0, 1e-14),
+                                      "c12/core-mesh/conserve-false-densities-changed",
+                                      lambda: "%s: setBlockMesh(conserveMassFlag=False): block %d %s number densities changed" % (where, i, c.name))
+                continue
             below_fuel = True
             for i in range(m.nb):
                 kind = run.blocks[i]["kind"]
@@ -898,9 +921,9 @@ PARTS_EXTRA = [
          rule="Hypothesis: a reference assembly and 1-3 follower assemblies of the same design with assembly type names with and "
               "without the fuel flag (fuel, feed fuel, igniter fuel, driver, lead test assembly, test), snap lists made; 1-3 "
               "prescribed changes of the reference (all clauses), each followed by AxialExpansionChanger.manageCoreMesh "
-              "(setBlockMesh(refMesh, 'auto') on every assembly). Oracle: followers on the reference mesh (contiguous, positive, "
+              "(setBlockMesh(refMesh, 'auto') on every assembly) or by setBlockMesh(refMesh, True / False) on the followers. Oracle: followers on the reference mesh (contiguous, positive, "
               "bounds, total height); fuel blocks conserve their fuel (target) mass whatever the assembly type; below-fuel "
-              "structure conserved in fuel-typed assemblies. Non-trivial = a fuel block and two blocks with different target growth"),
+              "structure conserved in fuel-typed assemblies; True: every component's mass conserved; False: densities unchanged. Non-trivial = a fuel block and two blocks with different target growth"),
 ]
 
 PARTS = [
